@@ -494,7 +494,7 @@ UserTry ==
 End ==
   /\ Quiescent /\ ~ended /\ (cfg.complete \/ nuser >= MaxUser)
   /\ ended' = TRUE
-  /\ Feed(<<"End", 0, 0>>, <<[e |-> "end"]>>)
+  /\ Feed(<<"End", 0, 0>>, <<[e |-> "end", full |-> TRUE]>>)
   /\ UNCHANGED <<S, cfg, js, marker, bfile, hs, nodeFile, processed, jp, procs, npid, nuser>>
 
 SubStep(s) == \/ Promote(s) \/ Poll(s) \/ Glob(s) \/ (\E b \in B : Move(s, b)) \/ CancelPass(s) \/ MarkerTouch(s)
